@@ -811,4 +811,268 @@ theorem flatMap_getElem? {α β : Type} (f : α → List β) (l : List α) (k t 
       rw [this]
       exact ih k (by simpa using hk) ht
 
+/-! ### two running offsets (block diagonal placement) -/
+
+def accFlat2 {α β : Type} (sa sb : α → Nat) (F : Nat → Nat → α → List β) : Nat → Nat → List α → List β
+  | _, _, [] => []
+  | a, b, x :: l => F a b x ++ accFlat2 sa sb F (a + sa x) (b + sb x) l
+
+theorem accFlat2_eq {α β : Type} (sa sb : α → Nat) (F : Nat → Nat → α → List β) (a b : Nat) (l : List α) :
+    accFlat2 sa sb F a b l = (List.range l.length).flatMap (fun k =>
+      match l[k]? with
+      | some x => F (a + sumMap sa (l.take k)) (b + sumMap sb (l.take k)) x
+      | none => []) := by
+  induction l generalizing a b with
+  | nil => rfl
+  | cons x l ih =>
+    rw [accFlat2, ih, List.length_cons, List.range_succ_eq_map, List.flatMap_cons, List.flatMap_map]
+    simp [sumMap, Nat.add_assoc]
+
+theorem sumMap_congr {α : Type} (f g : α → Nat) (l : List α) (h : ∀ a ∈ l, f a = g a) :
+    sumMap f l = sumMap g l := by
+  induction l with
+  | nil => rfl
+  | cons a l ih =>
+    simp only [sumMap]
+    rw [h a (by simp), ih (fun b hb => h b (List.mem_cons_of_mem _ hb))]
+
+theorem sumMap_mul_left {α : Type} (f : α → Nat) (d : Nat) (l : List α) :
+    sumMap (fun a => d * f a) l = d * sumMap f l := by
+  rw [sumMap_eq_sum, sum_map_mul_left]
+
+theorem sumMap_mul_right {α : Type} (f : α → Nat) (d : Nat) (l : List α) :
+    sumMap (fun a => f a * d) l = d * sumMap f l := by
+  rw [sumMap_eq_sum, sum_map_mul_right]
+
+theorem sumMap_zip_fst {α β : Type} (f : α → Nat) (l₁ : List α) (l₂ : List β) (h : l₁.length ≤ l₂.length) :
+    sumMap (fun x => f x.1) (l₁.zip l₂) = sumMap f l₁ := by
+  induction l₁ generalizing l₂ with
+  | nil => rfl
+  | cons a l₁ ih =>
+    cases l₂ with
+    | nil => simp at h
+    | cons b l₂ =>
+      simp only [List.zip_cons_cons, sumMap]
+      rw [ih l₂ (by simpa using h)]
+
+theorem sumMap_take_zip_fst {α β : Type} (f : α → Nat) (l₁ : List α) (l₂ : List β) (k : Nat)
+    (h : l₁.length = l₂.length) :
+    sumMap (fun x => f x.1) ((l₁.zip l₂).take k) = sumMap f (l₁.take k) := by
+  have : (l₁.zip l₂).take k = (l₁.take k).zip (l₂.take k) := by
+    simp only [List.zip, List.take_zipWith]
+  rw [this]
+  apply sumMap_zip_fst
+  simp [List.length_take, h]
+
+theorem blockDiagAux_eq (ro co : Nat) (ms : List Mat) :
+    blockDiagAux ro co ms = (ro + sumMap Mat.nr ms, co + sumMap Mat.nc ms,
+      accFlat2 Mat.nr Mat.nc (fun a b m => m.tr.map (fun t => (a + t.1, b + t.2.1, t.2.2))) ro co ms) := by
+  induction ms generalizing ro co with
+  | nil => rfl
+  | cons m ms ih => simp [blockDiagAux, ih, accFlat2, sumMap, Nat.add_assoc]
+
+theorem accFlat2_map_list {α β γ : Type} (sa sb : α → Nat) (F : Nat → Nat → α → List β) (g : γ → α)
+    (a b : Nat) (l : List γ) :
+    accFlat2 sa sb F a b (l.map g) =
+      accFlat2 (fun c => sa (g c)) (fun c => sb (g c)) (fun x y c => F x y (g c)) a b l := by
+  induction l generalizing a b with
+  | nil => rfl
+  | cons x l ih => simp [accFlat2, ih]
+
+/-! ### Trace: local traces stacked, columns through the cell projections -/
+
+/-- the list of blocks `Trace.__init__` stacks, for projections `blocks co (sizes)` -/
+def traceBlocks (total : Nat) (co : Nat) (gs : List G) (locals : List (List Trip)) : List Mat :=
+  (gs.zip ((blocks co (gs.map (fun g => 1 * g.cells))).zip locals)).map
+    (fun x => ⟨x.1.faces, total, mapCols x.2.1 x.2.2⟩)
+
+theorem traceBlocks_cons (total co : Nat) (g : G) (gs : List G) (L : List Trip) (ls : List (List Trip)) :
+    traceBlocks total co (g :: gs) (L :: ls) =
+      ⟨g.faces, total, mapCols (List.range' co (1 * g.cells)) L⟩ :: traceBlocks total (co + 1 * g.cells) gs ls := rfl
+
+theorem traceBlocks_nc (total co : Nat) (gs : List G) (locals : List (List Trip)) :
+    ∀ m ∈ traceBlocks total co gs locals, m.nc = total := by
+  intro m hm
+  obtain ⟨x, _, rfl⟩ := List.mem_map.mp hm
+  rfl
+
+theorem traceBlocks_nr (total co : Nat) (gs : List G) (locals : List (List Trip))
+    (h : gs.length = locals.length) :
+    sumMap Mat.nr (traceBlocks total co gs locals) = sumMap G.faces gs := by
+  induction gs generalizing co locals with
+  | nil => rfl
+  | cons g gs ih =>
+    cases locals with
+    | nil => simp at h
+    | cons L ls =>
+      rw [traceBlocks_cons]
+      simp only [sumMap]
+      rw [ih _ ls (by simpa using h)]
+
+theorem traceBlocks_acc (total ro co : Nat) (gs : List G) (locals : List (List Trip))
+    (h : gs.length = locals.length) (hfit : ∀ x ∈ gs.zip locals, ∀ t ∈ x.2, t.2.1 < x.1.cells) :
+    accFlat Mat.nr (fun o m => m.tr.map (fun t => (o + t.1, t.2.1, t.2.2))) ro (traceBlocks total co gs locals) =
+      accFlat2 (fun x : G × List Trip => x.1.faces) (fun x => x.1.cells)
+        (fun a b x => x.2.map (fun t => (a + t.1, b + t.2.1, t.2.2))) ro co (gs.zip locals) := by
+  induction gs generalizing ro co locals with
+  | nil => rfl
+  | cons g gs ih =>
+    cases locals with
+    | nil => simp at h
+    | cons L ls =>
+      rw [traceBlocks_cons]
+      simp only [List.zip_cons_cons, accFlat, accFlat2, Nat.one_mul]
+      rw [ih _ _ ls (by simpa using h) (fun x hx => hfit x (by simp [hx]))]
+      rw [mapCols_range' _ _ _ (hfit (g, L) (by simp))]
+      simp [List.map_map, Function.comp_def]
+
+/-! ### when the offset loop raises -/
+
+theorem projAux_none_iff (dim : Nat) (hd : 0 < dim) (l : List (Nat × Bool)) (off : Nat) :
+    projAux dim off l = none ↔ ∃ p ∈ l, p.2 = true ∧ p.1 = 0 := by
+  induction l generalizing off with
+  | nil => simp [projAux]
+  | cons p rest ih =>
+    obtain ⟨n, upd⟩ := p
+    have hind : (expandNd (List.range n) dim).map (off + ·) = List.range' off (dim * n) := by
+      rw [List.range_eq_range', expandNd_range' 0 n dim hd, List.map_add_range']
+      simp
+    simp only [projAux, hind]
+    cases upd with
+    | false =>
+      simp only [Bool.false_eq_true, if_false, Option.map_eq_none_iff, ih, List.mem_cons]
+      constructor
+      · rintro ⟨q, hq, h⟩; exact ⟨q, Or.inr hq, h⟩
+      · rintro ⟨q, hq | hq, h⟩
+        · subst hq; simp at h
+        · exact ⟨q, hq, h⟩
+    | true =>
+      by_cases hn : n = 0
+      · subst hn
+        simp
+      · have hpos : dim * n ≠ 0 := Nat.mul_ne_zero (by omega) hn
+        simp only [if_true, List.getLast?_range', if_neg hpos, Option.map_eq_none_iff, ih, List.mem_cons]
+        constructor
+        · rintro ⟨q, hq, h⟩; exact ⟨q, Or.inr hq, h⟩
+        · rintro ⟨q, hq | hq, h⟩
+          · subst hq; exact absurd h.2 hn
+          · exact ⟨q, hq, h⟩
+
+theorem projAux_length (dim : Nat) (l : List (Nat × Bool)) (off : Nat) (r : List (List Nat))
+    (h : projAux dim off l = some r) : r.length = l.length := by
+  induction l generalizing off r with
+  | nil => simp [projAux] at h; subst h; rfl
+  | cons p rest ih =>
+    obtain ⟨n, upd⟩ := p
+    simp only [projAux] at h
+    split at h
+    · split at h
+      · cases h
+      · obtain ⟨r', hr', rfl⟩ := Option.map_eq_some_iff.mp h
+        simp [ih _ _ hr']
+    · obtain ⟨r', hr', rfl⟩ := Option.map_eq_some_iff.mp h
+      simp [ih _ _ hr']
+
+theorem subIdx_ok_of_lt (projs : List (List Nat)) (sel : List Nat) (h : ∀ i ∈ sel, i < projs.length) :
+    subIdx (some projs) sel = .ok ((sel.map (fun i => projs.getD i [])).flatten) := by
+  simp only [subIdx, liftO, bind, Except.bind, select_eq projs sel h, pure, Except.pure]
+
+theorem subIdx_keyError_of_ge (projs : List (List Nat)) (sel : List Nat) (i : Nat) (hi : i ∈ sel)
+    (hge : projs.length ≤ i) : subIdx (some projs) sel = .error .keyError := by
+  simp only [subIdx, liftO, bind, Except.bind, select_none projs sel i hi hge]
+
+theorem subIdx_none (sel : List Nat) : subIdx none sel = .error .indexError := rfl
+
+/-! ### sign of mortar sides -/
+
+theorem signOf_length (dim : Nat) (i : Intf) (h : i.sides = 1 ∨ i.left + i.right = i.cells) :
+    (signOf dim i).length = i.cells * dim := by
+  unfold signOf
+  split
+  · simp
+  · rcases h with h | h
+    · contradiction
+    · simp [← h, Nat.add_mul]
+
+theorem signOf_getElem? (dim : Nat) (i : Intf) (h : i.sides = 1 ∨ i.left + i.right = i.cells) (j : Nat)
+    (hj : j < i.cells * dim) :
+    (signOf dim i)[j]? = some (if i.sides = 1 then 1 else if j < i.left * dim then -1 else 1) := by
+  unfold signOf
+  split
+  · next h1 => simp [hj]
+  · next h1 =>
+    have h2 : i.left + i.right = i.cells := by
+      rcases h with h | h
+      · contradiction
+      · exact h
+    rw [List.getElem?_append]
+    simp only [List.length_replicate]
+    split
+    · next hlt => simp [hlt]
+    · next hge =>
+      have : j - i.left * dim < i.right * dim := by
+        rw [← h2, Nat.add_mul] at hj
+        omega
+      simp [this]
+
+theorem signOf_mem (dim : Nat) (i : Intf) (x : Rat) (hx : x ∈ signOf dim i) : x = 1 ∨ x = -1 := by
+  unfold signOf at hx
+  split at hx
+  · exact Or.inl (List.eq_of_mem_replicate hx)
+  · rcases List.mem_append.mp hx with h | h
+    · exact Or.inr (List.eq_of_mem_replicate h)
+    · exact Or.inl (List.eq_of_mem_replicate h)
+
+theorem sumMap_map {α β : Type} (f : β → Nat) (g : α → β) (l : List α) :
+    sumMap f (l.map g) = sumMap (fun a => f (g a)) l := by
+  induction l with
+  | nil => rfl
+  | cons a l ih => simp [sumMap, ih]
+
+theorem bind_pure_error {α β : Type} (x : Except Err α) (f : α → β) (e : Err) :
+    (do let a ← x; pure (f a) : Except Err β) = .error e ↔ x = .error e := by
+  cases x <;> simp [bind, Except.bind, pure, Except.pure]
+
+theorem bind_pure_ok {α β : Type} (x : Except Err α) (f : α → β) :
+    (∃ m, (do let a ← x; pure (f a) : Except Err β) = .ok m) ↔ ∃ a, x = .ok a := by
+  cases x <;> simp [bind, Except.bind, pure, Except.pure]
+
+theorem subIdx_char (projs : Option (List (List Nat))) (n : Nat)
+    (hlen : ∀ r, projs = some r → r.length = n) (sel : List Nat) :
+    (subIdx projs sel = .error .indexError ↔ projs = none) ∧
+      (subIdx projs sel = .error .keyError ↔ projs ≠ none ∧ ∃ i ∈ sel, n ≤ i) ∧
+      ((∃ idx, subIdx projs sel = .ok idx) ↔ projs ≠ none ∧ ∀ i ∈ sel, i < n) := by
+  cases projs with
+  | none => simp [subIdx_none]
+  | some r =>
+    have hr : r.length = n := hlen r rfl
+    by_cases hall : ∀ i ∈ sel, i < r.length
+    · rw [subIdx_ok_of_lt r sel hall]
+      refine ⟨by simp, ?_, ?_⟩
+      · constructor
+        · intro h; cases h
+        · rintro ⟨_, i, hi, hge⟩
+          have := hall i hi
+          omega
+      · constructor
+        · intro _; exact ⟨by simp, fun i hi => hr ▸ hall i hi⟩
+        · intro _; exact ⟨_, rfl⟩
+    · have : ∃ i ∈ sel, r.length ≤ i := by
+        by_contra hc
+        apply hall
+        intro i hi
+        by_contra hlt
+        exact hc ⟨i, hi, by omega⟩
+      obtain ⟨i, hi, hge⟩ := this
+      rw [subIdx_keyError_of_ge r sel i hi hge]
+      refine ⟨by simp, ?_, ?_⟩
+      · constructor
+        · intro _; exact ⟨by simp, i, hi, hr ▸ hge⟩
+        · intro _; rfl
+      · constructor
+        · rintro ⟨idx, h⟩; cases h
+        · rintro ⟨_, h⟩
+          have := h i hi
+          omega
+
 end PorepyVerif.C27
